@@ -57,11 +57,11 @@ func (t *c02table) set(k string, v c02val) *c02table {
 	t.v[k] = v
 	return t
 }
-func (t *c02table) setS(k, s string) *c02table         { return t.set(k, c02val{kind: kStr, s: s}) }
-func (t *c02table) setI(k string, i int64) *c02table   { return t.set(k, c02val{kind: kInt, i: i}) }
-func (t *c02table) setB(k string, b bool) *c02table    { return t.set(k, c02val{kind: kBool, b: b}) }
+func (t *c02table) setS(k, s string) *c02table          { return t.set(k, c02val{kind: kStr, s: s}) }
+func (t *c02table) setI(k string, i int64) *c02table    { return t.set(k, c02val{kind: kInt, i: i}) }
+func (t *c02table) setB(k string, b bool) *c02table     { return t.set(k, c02val{kind: kBool, b: b}) }
 func (t *c02table) setL(k string, l []string) *c02table { return t.set(k, c02val{kind: kList, l: l}) }
-func (t *c02table) setRaw(k, s string) *c02table       { return t.set(k, c02val{kind: kRaw, s: s}) }
+func (t *c02table) setRaw(k, s string) *c02table        { return t.set(k, c02val{kind: kRaw, s: s}) }
 func (t *c02table) del(k string) {
 	if _, ok := t.v[k]; !ok {
 		return
